@@ -126,7 +126,8 @@ class Check:
         self._distinct = set()
         self.work = common.workdir(prop + "_" + self.tier)
         # share of the extended catalogue this run draws from (see mbt/catalogue.py gen_tla)
-        stride = int(os.environ.get("VERIF_CAT_STRIDE_" + self.tier.upper(), "6" if self.tier == "quick" else "1"))
+        quick_stride = {"C02": 1, "C01": 2, "C10": 2, "C17": 2, "C18": 3, "C19": 4}.get(prop, 6)     # cheap per program -> larger share
+        stride = int(os.environ.get("VERIF_CAT_STRIDE_" + self.tier.upper(), str(quick_stride) if self.tier == "quick" else "1"))
         os.environ["VERIF_CAT_STRIDE"] = str(stride)
         os.environ["VERIF_CAT_PHASE"] = str(self.seed % stride)
         self.cov["catalogue"] = {"extended_stride": stride, "phase": self.seed % stride}
